@@ -304,13 +304,17 @@ def run_agop(p, drv, res):
     g = torch.Generator().manual_seed(p['seed'] + 1)
     coefs = torch.randn(p['f'], x.shape[0], generator=g, dtype=torch.float64)
     Kd = mk_kernel(p)
+    cg = bool(p.get('center_grads', False))
     A_fast = guarded(res, f'{p["kernel"]} categorical get_agop',
-                     lambda: declare(mk_kernel(p), num, groups).get_agop(x, z, coefs, mat))
-    A_dense = guarded(res, f'{p["kernel"]} dense get_agop', lambda: Kd.get_agop(x, z, coefs, mat))
+                     lambda: declare(mk_kernel(p), num, groups).get_agop(x, z, coefs, mat, center_grads=cg))
+    A_dense = guarded(res, f'{p["kernel"]} dense get_agop', lambda: Kd.get_agop(x, z, coefs, mat, center_grads=cg))
     G = guarded(res, 'get_function_grads', lambda: Kd.get_function_grads(x, z, coefs, mat))
     if A_fast is None or A_dense is None or G is None:
         return
     G = G.reshape(-1, d)
+    if cg:      # single batch: centring over the merged (output x point) rows, as the dense path documents
+        G = G - G.mean(dim=0, keepdim=True)
+    res['dist']['center_grads'] = cg
     mask = block_mask(d, num, groups)
     finite = bool(torch.isfinite(A_dense).all())
     res['dist'].update({'kernel': p['kernel'], 'transform': p['transform'], 'layout': p['layout'], 'agop_outputs': p['f'],
@@ -443,6 +447,7 @@ def random_case(r, k, what, family, transforms=('none', 'diag', 'block')):
              grid=r.random() < 0.2, rank_deficient=r.random() < 0.2, zero_weight=r.random() < 0.2)
     if what == 'agop':
         c['f'] = 1 + k % 3
+        c['center_grads'] = (k % 4 >= 2)
         c['nx'], c['nz'] = min(c['nx'], 30), min(c['nz'], 30)
     return c
 
@@ -502,7 +507,7 @@ def check(run):
                        'the feature transform does not mix blocks (None, diagonal, block-diagonal); a mixing transform is run only '
                        'as a negative control where the paths are expected to differ',
                        'index groups and numerical indices partition the columns',
-                       'constant bandwidth (the adaptive-bandwidth hook is not triggered); center_grads=False',
+                       'constant bandwidth (the adaptive-bandwidth hook is not triggered); center_grads False and True (single batch)',
                        'exact real arithmetic in the theorems; float64 rounding absorbed by the allowance']
     run.trusted.append('torch.cdist / matmul / autograd (numerics of both real paths)')
     run.lean()
